@@ -191,6 +191,17 @@ Universe_Runs ==
      lin \in {"none", "ub", "eq"}, nl \in {"none", "nlc_ub", "nlc_eq", "vector"},
      opt \in {"default", "filter1", "filter2", "npt_min", "npt_max"}}
   \cup SocRich({"default", "filter2", "npt_max"}, {NoCb})
+  \cup  \* radius options and radius-management constants over their documented domains
+  {D(n, Const(n, bpk), x0, sc, obj, NoFault, lin, nl, "Bounds", opt, NoCb) :
+     n \in {1, 2}, bpk \in {"free", "wide", "narrow"}, x0 \in {"inside"}, sc \in BOOLEAN,
+     obj \in {"quad", "rosen"}, lin \in {"none", "ub"}, nl \in {"none", "nlc_ub", "nlc_eq"},
+     opt \in {"rho_big", "rho_eq", "rho0", "rho_tiny", "rho_huge", "k_irf15", "k_irf11", "k_drt12",
+              "k_drf25", "k_drf75", "k_res", "k_res2", "k_ratio", "k_pen", "k_misc"}}
+  \cup  \* exact merit ties: objectives symmetric about the start, constraints that are not
+  {D(n, Const(n, bpk), "zero", sc, obj, NoFault, lin, nl, "Bounds", opt, NoCb) :
+     n \in {2, 3}, bpk \in {"free", "wide"}, sc \in {FALSE}, obj \in {"negsq", "negabs"},
+     lin \in {"none", "two"}, nl \in {"plane_ub", "vector", "nlc_two", "circle_ge"},
+     opt \in {"default", "npt_max", "npt_min", "fev_3npt"}}
 
 Universe(id) ==
   CASE id = "C01" -> Universe_C01
